@@ -604,20 +604,21 @@ def gen_cases(tier):
         add(12, ['big+dust'], two, [(mixed3 * 4)], bound=1)
     else:
         add(2, None, ALL_STRATEGIES, ov2)
-        add(2, None, four, ov2, late=1)
-        add(2, None, two, ov2[:5], cancel=0)
+        add(2, None, three, ov2, late=1)
+        add(2, ['n-1_equal', 'n_equal', 'pairwise'], two, ov2[:5], cancel=0)
         add(2, ['n-1_equal', 'n_equal', 'pairwise'], two, [['hold', 'hold'], ['release', 'bcast_fail']], cancel=0, late=1)
-        add(3, None, two, ov3)
+        add(3, None, two, ov3[:6])
         add(3, None, ['random_draw'], [mixed3, ['release'] * 3])
         add(3, None, two, [mixed3, ['release'] * 3, ['hold'] * 3], late=2)
         add(3, ['n-1_equal', 'pairwise'], two, [['hold', 'release', 'release']], cancel=0)
-        add(3, ['n-1_equal', 'n_equal', 'pairwise'], two, [['hold'] * 3, ['release'] * 3], cancel=0)
+        add(3, ['n-1_equal', 'pairwise'], two, [['hold'] * 3, ['release'] * 3], cancel=0)
         add(3, ['n-1_equal'], two, [['release'] * 3], cancel=0, late=2)
         add(4, None, four, [['release'] * 4, ['hold'] * 4])
-        add(4, ['n-1_equal', 'pairwise'], two, [mixed4])
+        add(4, ['n-1_equal'], two, [mixed4])
         add(4, ['n-1_equal', 'pairwise'], two, [['release'] * 4], late=3)
         add(4, ['n-1_equal'], two, [['release'] * 4], cancel=0)
-        add(6, ['n-1_equal', 'pairwise', 'big+dust'], two, [['release'] * 6, mixed3 * 2], bound=2)
+        add(6, ['n-1_equal', 'pairwise', 'big+dust'], two, [['release'] * 6], bound=2)
+        add(6, ['n-1_equal', 'pairwise'], two, [mixed3 * 2], bound=2)
         add(6, ['n-1_equal', 'pairwise'], two, [mixed3 * 2], cancel=0, bound=1)
         add(12, ['n-1_equal', 'pairwise', 'big+dust'], two, [['release'] * 12], bound=2)
         add(12, ['n-1_equal'], ['prefer_confirmed'], [mixed3 * 4], bound=1)
